@@ -74,7 +74,9 @@ def write_overlay():
     for f in glob.glob(os.path.join(VERIF, "harness", "verifutil", "*.go")):
         rep[os.path.join(REPO, "internal", "verifutil", os.path.basename(f))] = f
     os.makedirs(WORK, exist_ok=True)
-    path = os.path.join(WORK, "overlay.json")
+    # one overlay file per target tree: concurrent checks with different VERIF_REPO must not overwrite each other
+    tag = "" if REPO == "/repo" else "-" + hashlib.sha1(REPO.encode()).hexdigest()[:10]
+    path = os.path.join(WORK, "overlay%s.json" % tag)
     data = json.dumps({"Replace": rep}, indent=1, sort_keys=True)
     if not os.path.exists(path) or open(path).read() != data:
         with open(path + ".tmp", "w") as fh:
